@@ -40,10 +40,31 @@ def main():
             else:
                 mod.replay(ck, data["case"])
         else:
-            mod.run(ck)
+            try:
+                mod.run(ck)
+            except Exception as e:  # noqa: BLE001
+                # A harness that cannot even drive / interpret the implementation.  On a tree identical to its
+                # HEAD this is our machinery's fault (exit 2).  On a working tree that differs from HEAD the
+                # crash is attributable to the change: the correspondence between model and implementation can no
+                # longer be established, which is a broken L2 (failures already found are kept and reported).
+                if not common.tree_differs_from_head():
+                    raise
+                tb = traceback.format_exc()
+                print(tb, file=sys.stderr)
+                ck.count("L2_harness_cannot_interpret_implementation")
+                ck.mismatch({"harness_exception": type(e).__name__, "message": str(e)[:500]},
+                            {"traceback_tail": tb.strip().splitlines()[-12:],
+                             "meaning": "the harness could not drive or interpret the changed implementation "
+                                        "(the same harness runs cleanly on the tree's HEAD); correspondence not established"})
             if (ck.gate.problems or ck.mismatches) and not ck.failures and hasattr(mod, "search"):
                 # L1/L2 broken: deeper failing-input search on the real code
-                mod.search(ck)
+                try:
+                    mod.search(ck)
+                except Exception:  # noqa: BLE001
+                    if not common.tree_differs_from_head():
+                        raise
+                    traceback.print_exc()
+                    ck.count("L3_search_crashed_on_changed_tree")
         pr.stop()
         ck.extra_cov["impl_line_coverage_in_process"] = pr.summary(common.REPO)
         ck.extra_cov["impl_line_coverage_note"] = ("lines of the property's anchored files executed in the check's own process while the harness "
